@@ -226,6 +226,11 @@ class Ctx:
             self.tie_failures.append('correspondence %s: process exit %s (sanitizer/assertion?) on case %s' % (
                 name, c['rc'], (c['case'] or '?')[:200]))
             st.setdefault('crash_samples', []).append({'rc': c['rc'], 'case': c['case'], 'output': c['output'][-1500:]})
+            if c['case'] and not any(v['key'] == 'implementation-aborts' for v in self.violations):
+                # the case on which the real code dies (assertion, sanitizer report, signal) IS a concrete failing input: the modelled behaviour
+                # of the property's subject is a result, the implementation delivers none
+                self.violation('implementation-aborts', 'the implementation ends with exit status %s (assertion / sanitizer report / signal) on this input (component %s)' % (c['rc'], name),
+                               {'case': c['case'], 'output': c['output'][-1500:]})
         return res
 
     # ------------------------------------------------------------------ step 4/5
